@@ -77,6 +77,8 @@ def generate(rng, tier):
             s2["props"] = {"ver": "2"}
             if r2.random() < 0.3:
                 s2["addrs"] = [f"10.77.{len(ops) % 250}.{r2.randrange(1, 250)}"]  # the host moved to another address
+            if r2.random() < 0.25:
+                s2["other_ttl"] = 120  # the new version is advertised with a much shorter TTL than the one it replaces
             # an update follows the previous announcement burst (ends tdone + 0.45 s) by more than one second: the
             # cache-flush bit only retires records received more than 1 s ago (RFC 6762 10.2)
             tu = round(tdone + r2.choice([0.1, 0.3, 1.6, 2.0, 3.0, 8.0]) + r2.random() * r2.choice([0.1, 1.0]), 6)
